@@ -80,7 +80,7 @@ TRUSTED = ['z3 nonlinear arithmetic and quantifier instantiation']
 
 
 def tasks(tier):
-    t = ['arith', 'stencil', 'cellsize', 'bounds', 'ncells', 'sound', 'update', 'cache', 'cellkey', 'octroot', 'context', 'query', 'complete', 'list', 'repoint', 'zrows', 'sortseg', 'sortflag',
+    t = ['arith', 'stencil', 'cellsize', 'bounds', 'ncells', 'sound', 'update', 'cache', 'cellkey', 'octroot', 'pidspace', 'sortkeys', 'context', 'query', 'complete', 'list', 'repoint', 'zrows', 'sortseg', 'sortflag',
             'lemma', 'oracle']
     return t + ['canary']
 
@@ -254,7 +254,7 @@ def task_cellsize(ctx, repo):
         obs.append(Obligation('cellsize.covers_every_h.%d' % i, o.pc,
                               z3.And(*gs), W))
     ctx.prove('cellsize.at_least_every_support_radius', z3only(obs, 60000),
-              use_nf=False, replay=replay_oracle(['single', 'hvar']))
+              use_nf=False, replay=replay_oracle(['single', 'hvar', 'hdiff']))
 
 
 # ------------------------------------------------------------------- bounds
@@ -468,14 +468,24 @@ def scenarios(dim, which):
     S['empty'] = lambda: [cloud(rng, 20, dim, name='a'), pa('b', [])]
     S['far'] = lambda: [cloud(rng, 30, dim, 1000.0, 1001.0)]
     S['hvar'] = lambda: [cloud(rng, 40, dim, h=rng.uniform(0.02, 0.3, 40))]
+    def ghosts():
+        a = cloud(rng, 40, dim, name='a'); b = cloud(rng, 12, dim, 0.2, 0.7, name='b')
+        a.tag[::3] = 2; b.tag[::4] = 1
+        a.align_particles(); b.align_particles()
+        return [a, b]
+    S['ghosts'] = ghosts
+    S['hdiff'] = lambda: [cloud(rng, 40, dim, h=0.12, name='a'), cloud(rng, 25, dim, 0.2, 0.8, h=0.03, name='b')]
     S['faces'] = lambda: [pa('a', *[(np.array(np.meshgrid(*[np.arange(4)*0.2]*3)).reshape(3, -1)[k] if k < dim else np.zeros(64)) for k in range(3)], h=0.1)]
     S['longz'] = lambda: [pa('a', rng.uniform(0, 0.5, 80), (rng.uniform(0, 0.5, 80) if dim > 1 else None), (rng.uniform(0, 2.0, 80) if dim > 2 else None), 0.06)]
     S['clustered'] = lambda: [pa('a', np.r_[rng.normal(0.2, 0.01, 30), rng.uniform(0, 3, 10)], (np.r_[rng.normal(0.2, 0.01, 30), rng.uniform(0, 3, 10)] if dim > 1 else None), None, 0.05)]
     return [(k, S[k]) for k in which if k in S]
 
 def brute(src, dst, i):
-    d2 = (src.x-dst.x[i])**2 + (src.y-dst.y[i])**2 + (src.z-dst.z[i])**2
-    c = np.maximum((RS*dst.h[i])**2, (RS*src.h)**2)
+    # all particles count, ghost / remote ones included
+    S_ = {k: src.get(k, only_real_particles=False) for k in 'xyzh'}
+    D_ = {k: dst.get(k, only_real_particles=False) for k in 'xyzh'}
+    d2 = (S_['x']-D_['x'][i])**2 + (S_['y']-D_['y'][i])**2 + (S_['z']-D_['z'][i])**2
+    c = np.maximum((RS*D_['h'][i])**2, (RS*S_['h'])**2)
     inside = set(np.where(d2 < c)[0].tolist())
     tie = set(np.where(np.abs(d2 - c) <= 1e-9*c)[0].tolist())
     return inside, tie
@@ -511,8 +521,10 @@ def move(pas, rng):
     for p in pas:
         n = p.get_number_of_particles()
         if n:
-            p.x[:] = p.x + rng.uniform(-0.05, 0.05, n)
-            p.h[:] = p.h * rng.uniform(0.9, 1.2, n)
+            xa = p.get('x', only_real_particles=False)
+            ha = p.get('h', only_real_particles=False)
+            xa[:] = xa + rng.uniform(-0.05, 0.05, n)
+            ha[:] = ha * rng.uniform(0.9, 1.2, n)
 
 KNOBS = {
     'SpatialHashNNPS': [('table4', dict(table_size=4))],
@@ -987,8 +999,13 @@ def task_update(ctx, repo):
     # NNPS.update: bounds, refresh, then every array binned with 0..n-1
     fn = m.methods('NNPS')['update']
     n = [z3.Int('n0'), z3.Int('n1')]
+    # every particle of the array is binned, ghosts and remote ones too:
+    # the count asked for must be the total, not the number of real ones
+    nreal_ = [z3.Int('n0_real'), z3.Int('n1_real')]
     pas = [SymObject(None, dict(get_number_of_particles=Native(
-        lambda e, s_, a, k, nd, i=i: n[i])), 'pa%d' % i) for i in range(2)]
+        lambda e, s_, a, k, nd, i=i: nreal_[i] if (
+            k.get('real') is True or (a and a[0] is True)) else n[i])),
+        'pa%d' % i) for i in range(2)]
     caches = [SymObject(None, dict(update=Native(
         lambda e, s_, a, k, nd, i=i: s_.trace.append(('cache_update', i)))),
         'cache%d' % i) for i in range(4)]
@@ -1037,7 +1054,7 @@ def task_update(ctx, repo):
                               W))
     ctx.prove('update.rebuilds_every_array_and_invalidates_caches',
               z3only(obs), use_nf=False, replay=replay_oracle(
-                  ['uniform', 'two'], history=True))
+                  ['uniform', 'two', 'ghosts'], history=True))
 
     # NeighborCache.update: every entry invalidated
     fn = m.methods('NeighborCache')['update']
@@ -1770,6 +1787,257 @@ def task_octroot(ctx, repo):
                           extra=dict(roots=str(roots)[:300])))
     ctx.prove('octree.root_covers_every_particle', z3only(obs),
               use_nf=False, replay=replay_octroot)
+
+
+OCT_THREADS = r'''
+import json, sys
+d = json.load(sys.stdin)
+if d.get('built'): sys.path.insert(0, d['built'])
+import numpy as np
+from pysph.base.utils import get_particle_array
+from pysph.base import nnps
+from pysph.base.nnps_base import set_number_of_threads
+from cyarray.api import UIntArray
+bad = None
+dx = 0.025
+gx, gy = np.mgrid[0:1:dx, 0:1:dx]
+x, y = gx.ravel(), gy.ravel()
+h = 1.2 * dx * (1 + 2 * x)
+n = len(x)
+for nt in (1, 2, 8):
+    set_number_of_threads(nt)
+    for cls in ('OctreeNNPS', 'CompressedOctreeNNPS'):
+        pa = get_particle_array(name='a', x=x, y=y, h=h)
+        nn = getattr(nnps, cls)(dim=2, particles=[pa], radius_scale=2.0)
+        nb = UIntArray()
+        for i in range(0, n, 7):
+            nn.get_nearest_particles(0, 0, i, nb)
+            d2 = (x - x[i])**2 + (y - y[i])**2
+            c = np.maximum((2 * h[i])**2, (2 * h)**2)
+            want = set(np.where(d2 < c * (1 - 1e-9))[0].tolist()); tie = set(np.where(np.abs(d2 - c) <= 1e-9 * c)[0].tolist())
+            got = set(nb.get_npy_array().tolist())
+            if (got ^ want) - tie:
+                bad = dict(algorithm=cls, threads=nt, particle=i, missing=sorted(want - got)[:6], extra=sorted(got - want - tie)[:6],
+                           note='tree built with %d OpenMP thread(s), variable h' % nt); break
+        if bad: break
+    if bad: break
+set_number_of_threads(1)
+print(json.dumps(dict(bad=bad)))
+'''
+
+
+def replay_oct_threads(model, ob):
+    if os.environ.get('PYVC_NO_BUILD_REPLAY'):
+        return dict(reproduced=False, note='build replay disabled')
+    try:
+        tree, msg = native.shared_build()
+        if tree is None:
+            return dict(reproduced=False, note=msg)
+        r = native.run_venv(OCT_THREADS, dict(built=tree), timeout=900,
+                            cwd='/tmp')
+    except Exception as e:
+        return dict(reproduced=False, note=str(e)[-300:])
+    if r['bad']:
+        return dict(reproduced=True, how='extensions built from the working '
+                    'tree with OpenMP; octree classes under 1, 2 and 8 '
+                    'threads against the definition', **r['bad'])
+    return dict(reproduced=False)
+
+
+# ----------------------------------------------------------------- pidspace
+def task_pidspace(ctx, repo):
+    """Octree builders and the octree query keep two index spaces apart: a
+    POSITION in an index container (self.pids, an `indices` vector) and the
+    PARTICLE ID stored there.  In every loop that translates its loop
+    variable through such a container (q = container[p]), particle data
+    (pointers taken from pa.<prop>.data / <wrapper>.<prop>.data) is indexed
+    by the translated id, never by the position -- on every builder path,
+    the serial one and the OpenMP ones (the latter only run with more than
+    one thread, where the bounded oracle does not reach)."""
+    obs = []
+    nloops = 0
+    for rel in (OCT_PYX, 'pysph/base/octree_nnps.pyx'):
+        m = repo.cython_module(rel)
+        W_ = m.path
+        for cname, cnode in sorted(m.classes.items()):
+            for fname, fn in sorted(m.methods(cname).items()):
+                data_ptrs = set()
+                for node in ast.walk(fn):
+                    if isinstance(node, ast.Assign) and len(
+                            node.targets) == 1 and isinstance(
+                            node.targets[0], ast.Name) and isinstance(
+                            node.value, ast.Attribute) and \
+                            node.value.attr == 'data' and isinstance(
+                                node.value.value, ast.Attribute) and \
+                            node.value.value.attr in ('x', 'y', 'z', 'h',
+                                                      'gid'):
+                        data_ptrs.add(node.targets[0].id)
+                if not data_ptrs:
+                    continue
+                used = False
+                for loop in [n_ for n_ in ast.walk(fn)
+                             if isinstance(n_, ast.For) and
+                             isinstance(n_.target, ast.Name)]:
+                    lv = loop.target.id
+                    trans = []
+                    for node in ast.walk(loop):
+                        if isinstance(node, ast.Assign) and isinstance(
+                                node.value, ast.Subscript) and isinstance(
+                                node.value.slice, ast.Name) and \
+                                node.value.slice.id == lv and \
+                                ast.unparse(node.value.value) in (
+                                    'p_indices', 'deref(indices)', 'indices',
+                                    'self.pids', 'pids',
+                                    'deref(p_indices)'):
+                            trans.append(node)
+                    if not trans:
+                        continue
+                    nloops += 1
+                    used = True
+                    bad = [ast.unparse(node) for node in ast.walk(loop)
+                           if isinstance(node, ast.Subscript) and isinstance(
+                               node.value, ast.Name) and
+                           node.value.id in data_ptrs and isinstance(
+                               node.slice, ast.Name) and node.slice.id == lv]
+                    obs.append(Obligation(
+                        'pidspace.%s.%s@%d' % (cname, fname, loop.lineno), [],
+                        z3.BoolVal(not bad), W_,
+                        extra=dict(position_used_as_particle_id=bad[:4])))
+                if used:
+                    ctx.function(m, fn, '%s.%s' % (cname, fname))
+    obs.append(Obligation('pidspace.translating_loops_found', [],
+                          z3.BoolVal(nloops >= 4), OCT_PYX,
+                          extra=dict(loops=nloops)))
+    ctx.prove('octree.particle_data_is_indexed_by_particle_id', obs,
+              replay=replay_oct_threads)
+
+
+# ----------------------------------------------------------------- sortkeys
+SORT_SITES = [
+    ('pysph/base/z_order_nnps.pyx', 'ZOrderNNPS', 'fill_array',
+     'sort_wrapper.compare_sort()'),
+    ('pysph/base/stratified_sfc_nnps.pyx', 'StratifiedSFCNNPS', 'fill_array',
+     'sort_wrapper.compare_sort()'),
+    ('pysph/base/cell_indexing_nnps.pyx', 'CellIndexingNNPS', 'fill_array',
+     'sort('),
+]
+
+
+def task_sortkeys(ctx, repo):
+    """The sorted-key classes (z-order, stratified SFC, cell indexing) find a
+    cell by binary search / first-occurrence tables over the key array, which
+    is only meaningful when the keys are sorted.  In each fill_array the sort
+    is executed on EVERY path: the call is an unconditional top-level
+    statement, after the loop that fills the keys and before the first
+    statement that reads them back, with no return in between; the sort
+    wrapper is built from the arrays and the count just filled."""
+    obs = []
+    for rel, cls, fname, call in SORT_SITES:
+        m = repo.cython_module(rel)
+        W_ = m.path
+        try:
+            fn = m.methods(cls)[fname]
+        except KeyError:
+            obs.append(Obligation('sortkeys.%s.present' % cls, [],
+                                  z3.BoolVal(False), W_))
+            continue
+        ctx.function(m, fn, '%s.%s' % (cls, fname))
+        top = list(fn.body)
+        pos = [i for i, st_ in enumerate(top)
+               if isinstance(st_, ast.Expr) and
+               ast.unparse(st_).startswith(call)]
+        nested = [n_ for n_ in ast.walk(fn) if isinstance(n_, ast.Expr) and
+                  ast.unparse(n_).startswith(call)]
+        ok = len(pos) == 1 and len(nested) == 1
+        why = 'sort statements at top level: %d, in all: %d' % (len(pos),
+                                                               len(nested))
+        if ok:
+            k = pos[0]
+            before, after = top[:k], top[k + 1:]
+            # the key-filling loop precedes it; nothing before it can leave
+            # the function
+            fills = [st_ for st_ in before if isinstance(st_, ast.For) and
+                     'current_keys[' in ast.unparse(st_)]
+            rets = [n_ for st_ in before for n_ in ast.walk(st_)
+                    if isinstance(n_, (ast.Return, ast.Raise))]
+            reads_before = [st_ for st_ in before
+                            if not isinstance(st_, ast.For) and
+                            'current_keys[' in ast.unparse(st_)]
+            ok = len(fills) == 1 and not rets and not reads_before and \
+                any('current_keys[' in ast.unparse(st_) for st_ in after)
+            why = 'fill loops %d, returns before the sort %d, reads of the ' \
+                'keys before the sort %d' % (len(fills), len(rets),
+                                             len(reads_before))
+            if ok and 'compare_sort' in call:
+                mk = [st_ for st_ in before if isinstance(st_, ast.Assign)
+                      and 'CompareSortWrapper(' in ast.unparse(st_)]
+                ok = len(mk) == 1 and ast.unparse(mk[0].value) in (
+                    'CompareSortWrapper(current_pids, current_keys, '
+                    'curr_num_particles)',)
+                why = 'wrapper %s' % ([ast.unparse(x) for x in mk],)
+        obs.append(Obligation('sortkeys.%s.%s.sort_on_every_path' % (cls,
+                                                                     fname),
+                              [], z3.BoolVal(bool(ok)), W_,
+                              extra=dict(why=why)))
+    ctx.prove('sortkeys.keys_are_sorted_before_they_are_searched', obs,
+              replay=replay_reorder_then_query)
+
+
+REORDER_QUERY = r"""
+import json, sys
+d = json.load(sys.stdin)
+if d.get('built'): sys.path.insert(0, d['built'])
+import numpy as np
+from pysph.base.utils import get_particle_array
+from pysph.base import nnps
+from cyarray.api import UIntArray
+bad = None
+for seed in (1, 2, 3):
+    rng = np.random.RandomState(seed)
+    for cls in ('ZOrderNNPS', 'ExtendedZOrderNNPS', 'StratifiedSFCNNPS', 'CellIndexingNNPS'):
+        n = 400
+        x, y = rng.rand(n), rng.rand(n)
+        pa = get_particle_array(name='a', x=x, y=y, h=0.04)
+        k = rng.randint(0, n - 40)
+        pa.tag[k] = 2                       # exactly one ghost
+        pa.align_particles()
+        nn = getattr(nnps, cls)(dim=2, particles=[pa], radius_scale=2.0)
+        for rnd in range(2):
+            nn.spatially_order_particles(0)
+            nn.update()
+            X = pa.get('x', only_real_particles=False); Y = pa.get('y', only_real_particles=False)
+            nb = UIntArray()
+            for i in range(n):
+                nn.get_nearest_particles(0, 0, i, nb)
+                d2 = (X - X[i])**2 + (Y - Y[i])**2
+                want = set(np.where(d2 < 0.08**2 * (1 - 1e-9))[0].tolist()); tie = set(np.where(np.abs(d2 - 0.08**2) <= 1e-9 * 0.08**2)[0].tolist())
+                got = set(nb.get_npy_array().tolist())
+                if (got ^ want) - tie:
+                    bad = dict(algorithm=cls, seed=seed, round=rnd, particle=i, missing=sorted(want - got)[:6], extra=sorted(got - want - tie)[:6],
+                               note='after spatially_order_particles + update, one ghost particle in the array'); break
+            if bad: break
+        if bad: break
+    if bad: break
+print(json.dumps(dict(bad=bad)))
+"""
+
+
+def replay_reorder_then_query(model, ob):
+    if os.environ.get('PYVC_NO_BUILD_REPLAY'):
+        return dict(reproduced=False, note='build replay disabled')
+    try:
+        tree, msg = native.shared_build()
+        if tree is None:
+            return dict(reproduced=False, note=msg)
+        r = native.run_venv(REORDER_QUERY, dict(built=tree), timeout=900,
+                            cwd='/tmp')
+    except Exception as e:
+        return dict(reproduced=False, note=str(e)[-300:])
+    if r['bad']:
+        return dict(reproduced=True, how='extensions built from the working '
+                    'tree; re-order, update, query against the definition',
+                    **r['bad'])
+    return dict(reproduced=False)
 
 
 # ------------------------------------------------------------------ context
@@ -2524,9 +2792,9 @@ def _free_ints(e):
 
 # ------------------------------------------------------------------- oracle
 QUICK_SCEN = ['single', 'coincident', 'two', 'sparse_src', 'empty', 'hvar',
-              'faces']
+              'faces', 'ghosts', 'hdiff']
 ALL_SCEN = ['single', 'coincident', 'line', 'uniform', 'two', 'sparse_src',
-            'empty', 'far', 'hvar', 'faces', 'clustered', 'longz']
+            'empty', 'far', 'hvar', 'faces', 'clustered', 'longz', 'ghosts', 'hdiff']
 
 
 def task_oracle(ctx, repo):
